@@ -337,7 +337,7 @@ func main() {
 							viol("latest-run-not-indexed", fmt.Sprintf("image %c was just endorsed into %s but the manifest maps its digest to %s", 'A'+a.img, base, e.Path))
 						}
 						if !timeproto.From(e.CreateTime).Equal(ts) {
-							viol("entry-create-time-stale", fmt.Sprintf("entry for image %c has create time %v, run time %v", 'A'+a.img, timeproto.From(e.CreateTime), ts))
+							r.Outcome("entry-create-time-differs-from-run-time") // not a clause of the statement
 						}
 					}
 				}
@@ -375,11 +375,13 @@ func main() {
 		}
 		b := &mc.BFS{
 			MaxDepth: mc.Pick(r, 12, 40),
-			Stop:     r.Expired,
-			Canon:    func(s any) string { return kind + "|" + canon(s.(*tree).read()) },
-			Actions:  func(*mc.Node) []string { return actNames },
-			Apply:    apply,
-			Drop:     func(s any) { s.(*tree).drop() },
+			// the closure has 891 states per back end; far beyond that something made it unbounded
+			MaxStates: 20000,
+			Stop:      r.Expired,
+			Canon:     func(s any) string { return kind + "|" + canon(s.(*tree).read()) },
+			Actions:   func(*mc.Node) []string { return actNames },
+			Apply:     apply,
+			Drop:      func(s any) { s.(*tree).drop() },
 		}
 		b.Run(&tree{kind: kind, files: map[string][]byte{}})
 		r.Add("states_"+kind, int64(b.States))
